@@ -11,9 +11,11 @@
    [run ls (init e p r)] is the state after ANY sequence of labels (all
    chunkings, all interleavings, unbounded).  The system is generic in the
    parser (pfeed/pflush), the binding dispatch (lookup, lookup_scan, waits),
-   the handlers (eff; Some r = the handler called app.exit(r)) and the
-   per-prompt edit state E; Model/C17_Emacs.v instantiates it with the
-   regenerated binding table of a real PromptSession and the C03 parser.
+   the handlers (eff; Some r = the handler called app.exit(r)), the binding a
+   cursor position report is delivered to (cpr_lookup: process_keys hands
+   reports straight to it, without the key buffer) and the per-prompt edit
+   state E; Model/C17_Emacs.v instantiates it with the regenerated binding
+   table of a real PromptSession and the C03 parser.
 
    nc l          = l without CPRResponse key presses
    logged c      = every key press that reached a handler, was dropped, or was
@@ -22,23 +24,23 @@
    decoded s     = every key press the parser produced, in order *)
 From Coq Require Import ZArith List Bool.
 From PTK Require Import Lib.Sx Lib.Py Gen.C17_Bindings Model.C03_Vt100Parser Model.C17_Typeahead Model.C17_Emacs
-  Proofs.C17_Core Proofs.C17_Conserve Proofs.C17_Accept Proofs.C17_Main Proofs.C17_Script Proofs.C17_Witness.
+  Proofs.C17_Core Proofs.C17_Conserve Proofs.C17_Accept Proofs.C17_Silent Proofs.C17_Main Proofs.C17_Script Proofs.C17_Witness.
 Import ListNotations.
-
 
 (* Conservation, for every binding set, handler set, parser, chunking and
    label order: the non-report key presses processed by prompt 1 ++ those
    processed by prompt 2 ++ ... ++ key buffer ++ type-ahead store ++ input
    queue are exactly the non-report key presses decoded so far, in order,
-   without duplication.  (What a reset() throws away is logged as ELost;
-   C17_nothing_after_accept shows that is always nothing.) *)
+   without duplication.  (Keys the coroutine pushes back when a handler has set
+   the result return to the front of the queue.  What a reset() throws away is
+   logged as ELost; C17_nothing_after_accept shows that is always nothing.) *)
 Theorem C17_conservation : forall (E bid res PS : Type)
   (lookup lookup_scan : E -> list kp -> option bid) (waits : E -> list kp -> bool)
-  (eff : bid -> list kp -> E -> E * option res) (is_cprh : bid -> bool) (restart : E -> E)
+  (eff : bid -> list kp -> E -> E * option res) (is_cprh : bid -> bool) (cpr_lookup : E -> option bid) (restart : E -> E)
   (pfeed : str -> PS -> PS * list kp) (pflush : PS -> PS * list kp) (res_eof : res),
-  let run := @run E bid res PS lookup lookup_scan waits eff is_cprh restart pfeed pflush res_eof in
+  let run := @run E bid res PS lookup lookup_scan waits eff is_cprh cpr_lookup restart pfeed pflush res_eof in
   let init := @init E bid res PS in
-   forall ls e p r,
+  forall ls e p r,
   let s := run ls (init e p r) in
   nc (logged (co s)) ++ nc (kbuf (co s)) ++ nc (ikeys (store s)) ++ nc (ikeys (queue s)) = nc (decoded s).
 Proof. exact conservation. Qed.
@@ -47,11 +49,11 @@ Print Assumptions C17_conservation.
 (* A cursor position report is never stored as type-ahead. *)
 Theorem C17_cpr_never_stored : forall (E bid res PS : Type)
   (lookup lookup_scan : E -> list kp -> option bid) (waits : E -> list kp -> bool)
-  (eff : bid -> list kp -> E -> E * option res) (is_cprh : bid -> bool) (restart : E -> E)
+  (eff : bid -> list kp -> E -> E * option res) (is_cprh : bid -> bool) (cpr_lookup : E -> option bid) (restart : E -> E)
   (pfeed : str -> PS -> PS * list kp) (pflush : PS -> PS * list kp) (res_eof : res),
-  let run := @run E bid res PS lookup lookup_scan waits eff is_cprh restart pfeed pflush res_eof in
+  let run := @run E bid res PS lookup lookup_scan waits eff is_cprh cpr_lookup restart pfeed pflush res_eof in
   let init := @init E bid res PS in
-   forall ls e p r,
+  forall ls e p r,
   Forall (fun i => item_is_cpr i = false) (store (run ls (init e p r))).
 Proof. exact cpr_never_stored. Qed.
 Print Assumptions C17_cpr_never_stored.
@@ -59,34 +61,60 @@ Print Assumptions C17_cpr_never_stored.
 (* The fuelled retry loop of the key processor never runs out. *)
 Theorem C17_fuel : forall (E bid res PS : Type)
   (lookup lookup_scan : E -> list kp -> option bid) (waits : E -> list kp -> bool)
-  (eff : bid -> list kp -> E -> E * option res) (is_cprh : bid -> bool) (restart : E -> E)
+  (eff : bid -> list kp -> E -> E * option res) (is_cprh : bid -> bool) (cpr_lookup : E -> option bid) (restart : E -> E)
   (pfeed : str -> PS -> PS * list kp) (pflush : PS -> PS * list kp) (res_eof : res),
-  let run := @run E bid res PS lookup lookup_scan waits eff is_cprh restart pfeed pflush res_eof in
+  let run := @run E bid res PS lookup lookup_scan waits eff is_cprh cpr_lookup restart pfeed pflush res_eof in
   let init := @init E bid res PS in
-   forall ls e p r, oof (co (run ls (init e p r))) = false.
+  forall ls e p r, oof (co (run ls (init e p r))) = false.
 Proof. exact fuel_suffices. Qed.
 Print Assumptions C17_fuel.
+
+(* Cursor position reports are consumed silently, for every binding set and
+   every label sequence: a report never enters the key buffer, is never
+   dropped or thrown away by a reset, and the only handler call whose key
+   sequence contains a report is the report binding called with that report
+   alone. *)
+Theorem C17_cpr_silent : forall (E bid res PS : Type)
+  (lookup lookup_scan : E -> list kp -> option bid) (waits : E -> list kp -> bool)
+  (eff : bid -> list kp -> E -> E * option res) (is_cprh : bid -> bool) (cpr_lookup : E -> option bid) (restart : E -> E)
+  (pfeed : str -> PS -> PS * list kp) (pflush : PS -> PS * list kp) (res_eof : res),
+  let run := @run E bid res PS lookup lookup_scan waits eff is_cprh cpr_lookup restart pfeed pflush res_eof in
+  let init := @init E bid res PS in
+  forall ls e p r,
+  let s := run ls (init e p r) in
+  Forall (sil_ev cpr_lookup) (rlog (co s)) /\ noc (kbuf (co s)).
+Proof. exact cpr_silent_log. Qed.
+Print Assumptions C17_cpr_silent.
+
+(* Reports are transparent: when the report binding neither ends the prompt
+   nor edits (cpr_silent; C17_emacs_cpr_silent for the real table), delivering
+   a report in ANY state of the key processor - also with a multi-key prefix
+   pending in the key buffer, also right after quoted-insert - leaves the edit
+   state, the key buffer and the result phase exactly as they were. *)
+Theorem C17_cpr_transparent : forall (E bid res : Type)
+  (lookup lookup_scan : E -> list kp -> option bid) (waits : E -> list kp -> bool)
+  (eff : bid -> list kp -> E -> E * option res) (is_cprh : bid -> bool) (cpr_lookup : E -> option bid),
+  cpr_silent eff cpr_lookup ->
+  forall (c : core E bid res) k, is_cpr k = true ->
+  let c' := deliver lookup lookup_scan waits eff is_cprh cpr_lookup (IKey k) c in
+  est c' = est c /\ kbuf c' = kbuf c /\ cph c' = cph c /\ pb c' = pb c.
+Proof. exact cpr_transparent. Qed.
+Print Assumptions C17_cpr_transparent.
 
 (* Between the accepting invocation and the end of the application only
    cursor position reports reach handlers, each alone; nothing is dropped;
    no reset() throws keys away; exit() is never called twice; the key buffer
-   is empty from the moment the result is set; no _Flush marker is left in
-   the queue or stored as type-ahead.
-   Hypotheses on the binding set:
-     exit_clean  - a binding that ends the prompt fires with nothing left in
-                   the key buffer (true when no such binding can match keys
-                   lying inside a longer binding: C17_exit_criterion);
-     cpr_fires   - a report alone in the key buffer is matched at once by a
-                   binding that does not end the prompt (C17_emacs_cpr_fires).
+   is empty from the moment the result is set (keys left in it go back to the
+   front of the queue and become type-ahead); no _Flush marker is left in the
+   queue or stored as type-ahead.  The only hypothesis is cpr_silent.
    Prompts ended by closing the input are excluded (LClose). *)
 Theorem C17_nothing_after_accept : forall (E bid res PS : Type)
   (lookup lookup_scan : E -> list kp -> option bid) (waits : E -> list kp -> bool)
-  (eff : bid -> list kp -> E -> E * option res) (is_cprh : bid -> bool) (restart : E -> E)
+  (eff : bid -> list kp -> E -> E * option res) (is_cprh : bid -> bool) (cpr_lookup : E -> option bid) (restart : E -> E)
   (pfeed : str -> PS -> PS * list kp) (pflush : PS -> PS * list kp) (res_eof : res),
-  let run := @run E bid res PS lookup lookup_scan waits eff is_cprh restart pfeed pflush res_eof in
+  let run := @run E bid res PS lookup lookup_scan waits eff is_cprh cpr_lookup restart pfeed pflush res_eof in
   let init := @init E bid res PS in
-  
-  exit_clean lookup lookup_scan waits eff is_cprh -> cpr_fires lookup waits eff ->
+  cpr_silent eff cpr_lookup ->
   forall ls e p r, ~ In LClose ls ->
   let s := run ls (init e p r) in
   Forall ok_ev (rlog (co s)) /\ cph (co s) <> CBroken res /\
@@ -99,42 +127,42 @@ Print Assumptions C17_nothing_after_accept.
    state e, the keys of the first line do not end the prompt before their
    last key, which ends it with result r1; the second line likewise from the
    restarted state; and so on.  Then, for every way of writing, reading and
-   chunking, every moment of starting and ending prompts and every arrival of
-   reports such that (a) no timeout label fires and the input is not closed,
-   (b) every report was consumed by the report handler alone (cpr_bad = false:
-   no pending multi-key prefix, no other binding shadowing it), and (c) what
-   has been decoded so far is, reports apart, a prefix of the script:
-   the prompts that have returned so far returned exactly the first lines'
-   results, in order.  *)
+   chunking, every moment of starting and ending prompts and reports arriving
+   ANYWHERE between key presses, such that (a) no timeout label fires and the
+   input is not closed and (b) what has been decoded so far is, reports
+   apart, a prefix of the script: the prompts that have returned so far
+   returned exactly the first lines' results, in order.
+   Hypotheses on the binding set: cpr_silent, and no_pushback - no binding
+   that ends the prompt fires from the retry scan with keys left in the
+   buffer (C17_exit_criterion is the static form checked on the real table). *)
 Theorem C17_script : forall (E bid res PS : Type)
   (lookup lookup_scan : E -> list kp -> option bid) (waits : E -> list kp -> bool)
-  (eff : bid -> list kp -> E -> E * option res) (is_cprh : bid -> bool) (restart : E -> E)
+  (eff : bid -> list kp -> E -> E * option res) (is_cprh : bid -> bool) (cpr_lookup : E -> option bid) (restart : E -> E)
   (pfeed : str -> PS -> PS * list kp) (pflush : PS -> PS * list kp) (res_eof : res),
-  let run := @run E bid res PS lookup lookup_scan waits eff is_cprh restart pfeed pflush res_eof in
+  let run := @run E bid res PS lookup lookup_scan waits eff is_cprh cpr_lookup restart pfeed pflush res_eof in
   let init := @init E bid res PS in
-  
-  exit_clean lookup lookup_scan waits eff is_cprh -> cpr_fires lookup waits eff ->
-  (forall b ks e, is_cprh b = true -> eff b ks e = (e, None)) ->
+  cpr_silent eff cpr_lookup -> no_pushback lookup lookup_scan waits eff is_cprh ->
   forall ls e p r lines rs,
   quiet ls ->
   let s := run ls (init e p r) in
-  cpr_bad (co s) = false ->
   @lines_ok E bid res lookup lookup_scan waits eff is_cprh restart (restart e) lines rs ->
   (exists tail, nc (decoded s) ++ tail = concat lines) ->
   results s = firstn (length (results s)) rs.
 Proof. exact script. Qed.
 Print Assumptions C17_script.
 
-(* The hypotheses of C17_nothing_after_accept are satisfiable. *)
+(* The hypotheses of C17_script are satisfiable. *)
 Example C17_hypotheses_satisfiable :
-  cpr_fires t_lookup t_waits t_eff /\ exit_clean t_lookup t_lookup t_waits t_eff (fun _ => false).
-Proof. exact (conj tiny_cpr_fires tiny_exit_clean). Qed.
+  cpr_silent t_eff t_cpr_lookup /\ no_pushback t_lookup t_lookup t_waits t_eff (fun _ => false).
+Proof. exact (conj tiny_cpr_silent tiny_no_pushback). Qed.
 Print Assumptions C17_hypotheses_satisfiable.
 
-(* The real table (regenerated): the report binding fires in every state ... *)
-Theorem C17_emacs_cpr_fires : cpr_fires e_lookup e_waits e_eff.
-Proof. exact emacs_cpr_fires. Qed.
-Print Assumptions C17_emacs_cpr_fires.
+(* The real table (regenerated): in every state a report is delivered to the
+   handler of bindings/cpr.py, which neither ends the prompt nor edits ... *)
+Theorem C17_emacs_cpr_silent :
+  cpr_silent e_eff e_cpr_lookup /\ forall e, exists b, e_cpr_lookup e = Some b /\ e_is_cprh b = true.
+Proof. exact (conj emacs_cpr_silent emacs_cpr_bound). Qed.
+Print Assumptions C17_emacs_cpr_silent.
 
 (* ... and no binding that can end the prompt can match keys lying strictly
    inside a longer binding (filters ignored: conservative). *)
@@ -144,27 +172,13 @@ Theorem C17_exit_criterion : forall p q,
 Proof. exact exit_criterion_rows. Qed.
 Print Assumptions C17_exit_criterion.
 
-(* "Reports are consumed silently and change nothing" is FALSE for the code
-   as it is.  (1) DESIGN F11: the same bytes with one report inserted between
-   ESC and b decode to the same non-report keys but the prompt returns
-   'foo barbX' instead of 'foo Xbar': the report flushes the pending Escape
-   out of the key buffer. *)
-Theorem C17_cpr_transparent_refuted :
-  exists a b rep,
-    nc (decoded (e_run (one_prompt (a ++ rep ++ b)) (e_init_sys false))) =
-    nc (decoded (e_run (one_prompt (a ++ b)) (e_init_sys false)))
-    /\ results_of (one_prompt (a ++ rep ++ b)) <> results_of (one_prompt (a ++ b)).
-Proof. exact cpr_not_transparent. Qed.
-Print Assumptions C17_cpr_transparent_refuted.
-
+(* Regression witnesses on the instance with the real table (the inputs of
+   the repaired findings C17-F1 = DESIGN F11 and C17-F2): 'foo bar' ESC b X CR
+   returns 'foo Xbar' with or without a report between ESC and b; 'fo' c-q
+   <report> 'ar' CR returns 'foar'. *)
 Theorem C17_cpr_transparent_witness :
   results_of (one_prompt w_plain) = [RText [102; 111; 111; 32; 88; 98; 97; 114]] /\
-  results_of (one_prompt w_split) = [RText [102; 111; 111; 32; 98; 97; 114; 98; 88]].
-Proof. exact (conj witness_plain witness_split). Qed.
+  results_of (one_prompt w_split) = [RText [102; 111; 111; 32; 88; 98; 97; 114]] /\
+  results_of (one_prompt w_quoted) = [RText [102; 111; 97; 114]].
+Proof. exact (conj witness_plain (conj witness_split witness_quoted)). Qed.
 Print Assumptions C17_cpr_transparent_witness.
-
-(* (2) after c-q (quoted-insert) the report is inserted into the line as text. *)
-Theorem C17_cpr_silent_refuted :
-  results_of (one_prompt w_quoted) = [RText ([102; 111] ++ w_report)].
-Proof. exact cpr_inserted. Qed.
-Print Assumptions C17_cpr_silent_refuted.
